@@ -511,3 +511,62 @@ func lockOfMap(th *Thread, p *Value) *mutexState {
 	}
 	return st
 }
+
+// ---- strings.Builder: content as a string value (its real code uses unsafe) ---------------
+
+func init() {
+	I := intrinsics
+	get := func(th *Thread, p *Value) Str {
+		if p == nil {
+			th.rtPanic("invalid memory address or nil pointer dereference (nil *strings.Builder)")
+		}
+		if th.m.builders == nil {
+			th.m.builders = map[*Value]Str{}
+		}
+		return th.m.builders[p]
+	}
+	I["(*strings.Builder).WriteString"] = func(th *Thread, fn *ssa.Function, args []Value) Value {
+		p := args[0].(*Value)
+		s := args[1].(Str)
+		th.m.builders[p] = th.strConcat(get(th, p), s).(Str)
+		return Tuple{th.strLenTerm(s), Iface{}}
+	}
+	I["(*strings.Builder).Write"] = func(th *Thread, fn *ssa.Function, args []Value) Value {
+		p := args[0].(*Value)
+		s := th.bytesArg(args[1])
+		th.m.builders[p] = th.strConcat(get(th, p), s).(Str)
+		return Tuple{th.strLenTerm(s), Iface{}}
+	}
+	I["(*strings.Builder).WriteByte"] = func(th *Thread, fn *ssa.Function, args []Value) Value {
+		p := args[0].(*Value)
+		th.m.builders[p] = th.strConcat(get(th, p), mkStr([]*Term{args[1].(*Term)})).(Str)
+		return Iface{}
+	}
+	I["(*strings.Builder).WriteRune"] = func(th *Thread, fn *ssa.Function, args []Value) Value {
+		m := th.m
+		p := args[0].(*Value)
+		r := args[1].(*Term)
+		if !r.IsConst() {
+			m.unsupported("strings.Builder.WriteRune of a symbolic rune")
+		}
+		s := string(rune(int32(r.Val)))
+		m.builders[p] = th.strConcat(get(th, p), Str{C: s}).(Str)
+		return Tuple{m.ts.Const(64, uint64(len(s))), Iface{}}
+	}
+	I["(*strings.Builder).String"] = func(th *Thread, fn *ssa.Function, args []Value) Value {
+		return get(th, args[0].(*Value))
+	}
+	I["(*strings.Builder).Len"] = func(th *Thread, fn *ssa.Function, args []Value) Value {
+		return th.strLenTerm(get(th, args[0].(*Value)))
+	}
+	I["(*strings.Builder).Cap"] = I["(*strings.Builder).Len"]
+	I["(*strings.Builder).Grow"] = func(th *Thread, fn *ssa.Function, args []Value) Value {
+		get(th, args[0].(*Value))
+		return nil
+	}
+	I["(*strings.Builder).Reset"] = func(th *Thread, fn *ssa.Function, args []Value) Value {
+		get(th, args[0].(*Value))
+		th.m.builders[args[0].(*Value)] = Str{}
+		return nil
+	}
+}
